@@ -143,6 +143,10 @@ json_endpoints! {
     fn kib_body(body: String) -> String;
     fn safe_mix(auth_: BearerToken, safe_path: String, unsafe_path: String, safe_query: String, unsafe_query: String, safe_header: String, unsafe_header: String, dnl_query: Option<String>, enum_query: Option<Color>, unsafe_enum_query: Option<Color>) -> ();
     fn tag_mix(plain_path: String, retry_query: String, unsafe_tag_query: String, upper_header: String, marker_alike: String, real_safe: String) -> ();
+    fn tee_body(id: i32, body: Tee) -> ();
+    fn wrapper_body(id: i32, body: Wrapper) -> ();
+    fn link_body(id: i32, body: Vec<Link>) -> ();
+    fn safe_choice_body(id: i32, body: SafeChoice) -> ();
     fn safe_body(id: i32, body: Payload) -> i32;
     fn same_ids(path_word: String, page_token: String, page_size: Option<i32>, secret_word: String, trace_id: String, unsafe_header: Option<i32>) -> ();
     fn enum_map_body(id: i32, body: BTreeMap<Color, StrAlias>) -> ();
@@ -150,6 +154,7 @@ json_endpoints! {
     fn out_of_order(third: i32, second: String, q: Option<String>, first: String) -> String;
     fn one_query(page_limit: Option<i32>) -> i32;
     fn one_query_required(the_id: i32) -> i32;
+    fn alias_params(dt: DtAlias, dbl: DblAlias, u: UuidAlias, b: BoolAlias, sl: Option<SlAlias>, dts: Vec<DtAliasAlias>, rid: RidAlias, n: Option<IntAlias>) -> String;
     fn noop() -> ();
 }
 
